@@ -48,6 +48,8 @@ META = dict(
         "is not unsat is the exact binary query asked (whose model is replayed)",
         "pillar: isotropic materials (concrete seeded decimals), inputs boxed to |x|<=4, 1e-9 slack on distance comparisons (float64 rounding of 1/eps); "
         "ties between allowed columns: any minimiser accepted",
+        "pillar, 'permittivity_differences_plus_average_permittivity' metric = mean |diff(x) - diff(v)| + |mean x - mean v|; for height-1 columns (no differences) "
+        "the euclidean distance is the configured one",
         "pillar, euclidean metric: sqrt is an uninterpreted function constrained to be order-preserving on the non-negative arguments that occur; "
         "the interpreter's sqrt-domain side conditions (sum of squares >= 0) are assumed",
     ],
